@@ -1630,6 +1630,9 @@ impl TInputProtocol for TCompactInputProtocol<&mut Bytes> {
 
     #[inline]
     fn read_bool(&mut self) -> Result<bool, ThriftException> {
+        // the bool has now been read, so the field announced to `field_begin_len` is
+        // no longer pending
+        self.pending_read_bool_field_identifier = None;
         match self.pending_read_bool_value.take() {
             Some(b) => Ok(b),
             None => {
